@@ -75,8 +75,21 @@ theorem cat_bytes (input : List Char) (hne : input ≠ []) :
   rw [utf8_input_is_its_text]
   exact ⟨h1, by rw [h2], h3⟩
 
-/-- the decoder accepts exactly what the encoder produces for a text, and gives the text back (all scalar values) -/
-theorem utf8_roundtrip (s : List Char) : utf8Decode (utf8Encode s) = some s := decode_encode s
+/-- the decoder accepts exactly what the encoder produces for a text, and gives the text back (all scalar values):
+a byte string decodes to a text iff it is that text's UTF-8 encoding (shortest forms only, no surrogates) -/
+theorem utf8_roundtrip (bs : List UInt8) (s : List Char) : utf8Decode bs = some s ↔ bs = utf8Encode s := decode_iff bs s
+
+/-- **every valid UTF-8 input, byte for byte**: whatever bytes the strict decoder accepts (and at least one character),
+`cat` halts normally having written exactly those bytes, and nothing to standard error -/
+theorem cat_valid_utf8 (bytes : List UInt8) (text : List Char) (hv : utf8Decode bytes = some text) (hne : bytes ≠ []) :
+    ∃ n, (runN cat n (initCfgBytes bytes)).2 = .ended ∧
+      utf8Encode (runN cat n (initCfgBytes bytes)).1.m.2.out = bytes ∧
+      (runN cat n (initCfgBytes bytes)).1.m.2.err = [] := by
+  have hb := (decode_iff bytes text).mp hv
+  subst hb
+  have htext : text ≠ [] := by
+    intro e; subst e; exact hne rfl
+  exact cat_bytes text htext
 
 /-- …and on the empty input it writes the NaN text and halts normally (a loop-until-end-of-input copier
 cannot be silent there: the first pass through the print command happens before the first test) -/
